@@ -3,6 +3,7 @@
 #   applies patch.diff to a fresh private copy of /repo, builds test_bitcoin, runs the repository's test-suite (must pass),
 #   builds demo.cpp against the changed and the unchanged tree (must fail / must pass). Appends the outcome to meta.json.
 ID=$1; N=$2; D=/verif/seeded/$ID/$N; W=v_$N
+[ -d /tmp/seedkit ] || { mkdir -p /tmp/seedkit && cp /verif/tools/seedkit/* /tmp/seedkit/ && chmod +x /tmp/seedkit/*.sh; }
 rm -rf /tmp/seed/$W; /tmp/seedkit/seednew.sh $W >/dev/null
 cp $D/demo.cpp /tmp/seed/$W/demo.cpp
 ( cd /tmp/seed/$W/repo && git apply $D/patch.diff ) || { echo "$N: patch does not apply"; exit 2; }
